@@ -444,6 +444,20 @@ def level_advance(ctx, p):
             and norm_text(bk.get("mask")) == "self.mask"
     ctx.ob(rule, m.key + ":result", okr, where=m, node=rets[0] if rets else m.node, construct=detr,
            message="the result must be the array accumulated over the levels PLUS the last level's evaluation of the still-unresolved pixels, on the sampler's mask")
+    # the only exit before the schedule: an evaluation that is zero everywhere needs no refinement (and would divide by zero in the threshold test)
+    early = [r for r in wire.returns_of(m) if r.lineno < loop.lineno]
+    oke = True
+    dete = []
+    for r in early:
+        pcs = wire.path_conds(m, r, inline=True)
+        dete.append(f"return {norm_text(r.value)[:40]} under {pcs}")
+        bases = ([lower_a] if lower_a else []) + [v_ for _, v_ in first]   # the first-level evaluation under its own name, or with temporaries / renaming aliases read through
+        rv = norm_text(wire.inline_locals(m, wire.strip_np_array(r.value)))
+        rv0 = norm_text(wire.strip_np_array(r.value))
+        oke = oke and len(pcs) == 1 and any((rv in (B_, f"{B_}.slim") or rv0 in (B_, f"{B_}.slim")) and any(wire.cond_holds(pcs, t_) or wire.cond_holds(wire.path_conds(m, r), t_)
+                                                                                                            for t_ in (f"not np.any({B_})", f"not {B_}.any()", f"np.all({B_} == 0)")) for B_ in bases)
+    ctx.ob(rule, m.key + ":early-exit", oke, where=m, node=early[0] if early else m.node, construct="; ".join(dete)[:200] or "no early exit",
+           message="before the schedule the first evaluation may be returned as it is only when it is zero everywhere (`not np.any(..)`): any other test returns an unrefined array")
     ctx.ob(rule, m.key + ":first-last", bool(okf) and okl, where=m, node=tail[0] if tail else m.node, construct=f"first {first[:2]}; last {norm_text(tail[0].value)[:120] if tail else None}",
            message="the schedule must start from the sub-size-1 evaluation and end by filling the still-unresolved pixels at the last sub size")
 
@@ -452,6 +466,8 @@ _O = "autoarray/operators/over_sampling/over_sample_util.py"
 _U = "autoarray/operators/over_sampling/uniform.py"
 _I = "autoarray/operators/over_sampling/iterate.py"
 CONTROLS = [
+    Control("iterative scheme: last level's values not added to the result (found by mutation fuzzing)", "autoarray/operators/over_sampling/iterate.py", in_func("OverSamplerIterate.array_via_func_from", "        iterated_array_2d = iterated_array + array_higher_sub\n", "        iterated_array_2d = iterated_array\n"), "C09.iterate"),
+    Control("iterative scheme: early exit taken when the first evaluation is NOT all zero (found by mutation fuzzing)", "autoarray/operators/over_sampling/iterate.py", in_func("OverSamplerIterate.array_via_func_from", "        if not np.any(array_sub_1):", "        if np.any(array_sub_1):"), "C09.iterate"),
     Control("sub-pixel x centres offset by a full step", _O, in_func("grid_2d_slim_over_sampled_via_mask_from", "x_scaled - x_sub_half + x1 * x_sub_step + (x_sub_step / 2.0)", "x_scaled - x_sub_half + x1 * x_sub_step + x_sub_step"), "C09.payload"),
     Control("y sub-step from x pixel scale", _O, in_func("grid_2d_slim_over_sampled_via_mask_from", "y_sub_step = pixel_scales[0] / (sub)", "y_sub_step = pixel_scales[1] / (sub)"), "C09.payload"),
     Control("x1 outer, y1 inner", _O, in_func("grid_2d_slim_over_sampled_via_mask_from", "for y1 in range(sub):\n                    for x1 in range(sub):", "for x1 in range(sub):\n                    for y1 in range(sub):"), "C09.payload"),
